@@ -473,7 +473,13 @@ pub fn check_event(ev: &Event, st: &mut Stats, out: &mut Vec<Viol>) {
         st.eval("C14", crate::rng::mix(&[len_class(pre.len), ev.hk as u64, has_tombstones(pre) as u64, n_class(pre.len % 7)]));
         let a: Vec<_> = pre.ents.iter().map(|e| (e.id, e.rec, e.kheap, e.vheap, e.stamp)).collect();
         let b: Vec<_> = cl.ents.iter().map(|e| (e.id, e.rec, e.kheap, e.vheap, e.stamp)).collect();
-        if !cl.g1.is_empty() || !cl.g2.is_empty() || !cl.g3.is_empty() { v(out, "C14", "clone-structure", format!("clone is not coherent: {:?} {:?} {:?}", cl.g1, cl.g2, cl.g3)); for m in &cl.g1 { v(out, "C07", "g1", format!("clone: {}", m)); } }
+        if !cl.g1.is_empty() || !cl.g2.is_empty() || !cl.g3.is_empty() {
+            v(out, "C14", "clone-structure", format!("clone is not coherent: {:?} {:?} {:?}", cl.g1, cl.g2, cl.g3));
+            for m in &cl.g1 { v(out, "C07", "g1", format!("clone: {}", m)); }
+            for m in &cl.g2 { v(out, "C07", "g2", format!("clone: {}", m)); v(out, "C05", "g2", format!("clone: {}", m)); }
+            // the clone is a cache in its own right: a lookup that disagrees with what it holds is a map failure (C04)
+            for m in &cl.g3 { v(out, "C07", "g3", format!("clone: {}", m)); v(out, "C04", "g3", format!("in the cache returned by clone(): {}", m)); }
+        }
         if a != b { v(out, "C14", "clone-contents", format!("clone holds {:?}, source {:?}", b, a)); }
         if cl.cur != pre.cur || cl.max != pre.max || cl.len != pre.len { v(out, "C14", "clone-scalars", format!("clone cur/max/len = {}/{}/{}, source {}/{}/{}", cl.cur, cl.max, cl.len, pre.cur, pre.max, pre.len)); }
         if cl.cap < pre.cap { v(out, "C14", "clone-capacity", format!("clone capacity {} < source capacity {}", cl.cap, pre.cap)); }
